@@ -1,5 +1,5 @@
 (* Correspondence for C08: library writer -> library reader -> library writer. *)
-From PNC Require Export Base.Util Base.Words Model.Uamiv Model.YearEnd Model.Lbdy Model.One3d Model.TempHp Model.Wind Model.CloudRain.
+From PNC Require Export Base.Util Base.Words Model.Uamiv Model.YearEnd Model.Lbdy Model.One3d Model.TempHp Model.Wind Model.CloudRain Model.Landuse.
 From PNC Require Export Corr.C09.
 Local Open Scope Z_scope.
 
@@ -17,6 +17,7 @@ Inductive case_t :=
 | HD8 (c : hcase)
 | WD8 (c : wcase)
 | CD8 (c : ccase)
+| LUD8 (c : lucase)
 | R8 (ref : list word) (recs : list (list word)) (w_ok : bool) (written : list word)
 (* lateral-boundary file (Model/Lbdy.v): in-memory file WITHOUT _boundary_def (the writer generates the edge
    definitions and always derives the end dates) -> library writer -> library reader -> library writer *)
@@ -64,6 +65,7 @@ Definition check (c : case_t) : verdict :=
   | HD8 c => (hcheckF c, hcheckS c && zlist_eqb (hc_written c) (hc_ref c), hregion c)
   | WD8 c => (wcheckF c, wcheckS c && zlist_eqb (wc_written c) (wc_ref c), wregion c)
   | CD8 c => (ccheckF c, ccheckS c && zlist_eqb (cc_written c) (cc_ref c), cregion c)
+  | LUD8 c => (lucheckF c, lucheckS c && zlist_eqb (luc_written c) (luc_ref c) && luc_rr_ok c, luregion c)
   | WL l hours w1_ok w1 open_ok v tflag etflag py_ok w2_ok w2 =>
     let bh := map fst hours in
     let iu := lb_derive l bh true in
